@@ -54,7 +54,7 @@ func (g *decorGen) nextID() int { g.id++; return g.id }
 func (g *decorGen) dec(pos string) string {
 	if pos == "param" {
 		ret := ""
-		if g.chance("truthyparam", 6) {
+		if g.chance("truthyparam", 2) {
 			ret = g.pick("pret", []string{"num", "obj"})
 			g.truthy = true
 		}
@@ -293,6 +293,10 @@ func genDecorCase(rt *rapid.T) ClassCase {
 	return c
 }
 
+// a method line that starts (after TypeScript modifiers) with a computed key with side effects, i.e. without
+// decorators of its own, and that has a decorated parameter
+var paramOnlyComputedKey = regexp.MustCompile(`(?m)^\s*(?:public |private |protected )?(?:static )?\[p\(\d+, "mk\d+"\)\]\([^)]*@pd\(`)
+
 var truthyParamDec = regexp.MustCompile(`pd\("P\d+", "(num|obj)"\)`)
 
 // judgeDecor adds the matcher of the known finding C06-param-decorator-return-value: the case has a parameter
@@ -300,9 +304,17 @@ var truthyParamDec = regexp.MustCompile(`pd\("P\d+", "(num|obj)"\)`)
 // are made undefined (nothing else about the case changes).
 func judgeDecor(c ClassCase) vdrv.Verdict {
 	v := judgeClass(c)
+	if !v.OK && v.Discard == "" && strings.Contains(v.Observed, "panic: Internal error") && paramOnlyComputedKey.MatchString(c.TS) {
+		// known finding C06-param-decorator-computed-key-panic: a method whose computed key needs a temporary and
+		// that carries parameter decorators but no decorator of its own
+		v.Known = "C06-param-decorator-computed-key-panic"
+		return v
+	}
 	if !v.OK && v.Discard == "" && truthyParamDec.MatchString(c.TS) {
 		n := c
-		neutral := func(s string) string { return truthyParamDec.ReplaceAllStringFunc(s, func(m string) string { return m[:strings.LastIndex(m, ", ")] + `, "")` }) }
+		neutral := func(s string) string {
+			return truthyParamDec.ReplaceAllStringFunc(s, func(m string) string { return m[:strings.LastIndex(m, ", ")] + `, "")` })
+		}
 		n.TS, n.Reference, n.Opposite = neutral(c.TS), neutral(c.Reference), neutral(c.Opposite)
 		if w := judgeClass(n); w.OK && w.Discard == "" {
 			v.Known = "C06-param-decorator-return-value"
@@ -321,7 +333,7 @@ func replayDecor(raw json.RawMessage) vdrv.Verdict {
 
 func runDecor(t *testing.T) {
 	H.Rule("decor", "rapid: one or two classes (plain, derived, or derived from the previous possibly-replaced class) from the class IR with legacy decorators on the class, methods, static methods, accessor pairs (on the first accessor), instance/static properties, method/constructor/setter parameters (0–3 decorators per position, 0–2 per parameter); decorator expressions are factory calls that log their evaluation, plain identifiers, member accesses and parenthesised expressions; decorators log their application (argument count, target kind through an own static tag, key, descriptor shape / parameter index) and optionally replace the method/accessor descriptor, mutate it, install an accessor for a property, replace the class by a subclass or tag it; parameter decorators return undefined or (rarely) a truthy value that TypeScript ignores; computed method names with side effects; parameter properties; methods that refer to the class by name (the binding a class decorator replaces); × experimentalDecorators:true × field semantics as in `fields` × esbuild target × minify. The JavaScript meaning is tsc's legacy-decorator scheme written by hand: class definition (static initialisers included) first, then __decorate([member decorators…, __param(i, d)…], C.prototype, key, null | void 0) for the instance members in source order, then the static members, then C = __decorate([class decorators…, __param(i, d) of the constructor…], C), with tslib's __decorate (right-to-left application, returned descriptor / class replaces) and __param (return value discarded). Oracle: V8 trace of esbuild's output == V8 trace of that JavaScript. Excluded by construction: emitDecoratorMetadata, decorators on both accessors of a pair, the class's own name inside static initialisers of a decorated class, property decorators that return a value, numeric keys on decorated members. non-trivial = ≥3 events of which ≥2 decorator applications")
-	H.SetupRapid("decor", H.N(2400, 120000))
+	H.SetupRapid("decor", H.N(1600, 100000))
 	rapid.Check(t, func(rt *rapid.T) {
 		c := genDecorCase(rt)
 		H.Report(rt, "decor", c.TS+c.tsconfigRaw()+c.EsTarget+c.Minify, c, judgeDecor(c))
